@@ -18,6 +18,26 @@ type caseC01 struct {
 	K    string  `json:"k"` // canonical scalar, hex
 	NilK bool    `json:"nil_k,omitempty"`
 	Hist int     `json:"hist,omitempty"` // > 0: the scalar object was used before and got k through a mutator
+	// Pre: a multiplication of a RELATED point (same y / same x / same point, Z = 1) by PreK runs right before the one under
+	// test: calls are independent, whatever an earlier call on a look-alike operand left behind must not matter.
+	Pre  string `json:"pre,omitempty"` // "", endo, endo2, neg, same, double
+	PreK string `json:"pre_k,omitempty"`
+}
+
+var preRel = []string{"endo", "endo2", "neg", "same", "double"}
+
+func related(rel string, p ref.Point) ref.Point {
+	switch rel {
+	case "endo":
+		return ref.Endo(p)
+	case "endo2":
+		return ref.Endo(ref.Endo(p))
+	case "neg":
+		return ref.Neg(p)
+	case "double":
+		return ref.Double(p)
+	}
+	return p
 }
 
 func kClasses(o *gen.Obs, k *big.Int) {
@@ -38,6 +58,13 @@ var c01 = gen.Register(&gen.Check[caseC01]{
 		if gen.Chance(t, "hist", 1, 3) {
 			c.Hist = 1 + gen.Pick(t, "installer", 6)
 		}
+		if gen.Chance(t, "pre", 1, 4) {
+			c.Pre = preRel[gen.Pick(t, "preRel", len(preRel))]
+			c.PreK = c.K
+			if rapid.Bool().Draw(t, "otherK") {
+				c.PreK = gen.H(gen.IntBoth(ref.N).Draw(t, "preK"))
+			}
+		}
 		return c
 	},
 	Fixed: func() []caseC01 {
@@ -55,7 +82,7 @@ var c01 = gen.Register(&gen.Check[caseC01]{
 		out = append(out, caseC01{P: g, K: "00", NilK: true}, caseC01{P: gz, K: "00", NilK: true}, caseC01{P: id, K: "00", NilK: true})
 		return out
 	},
-	Required: []string{"k=0", "k=1", "k>=2^255", "k=n-1", "p:identity", "nil-scalar", "used-scalar-object"},
+	Required: []string{"k=0", "k=1", "k>=2^255", "k=n-1", "p:identity", "nil-scalar", "used-scalar-object", "after-related-multiply"},
 	Run: func(c caseC01, o *gen.Obs) error {
 		hostileCaller()
 		p, err := pt.Build(c.P)
@@ -85,6 +112,16 @@ var c01 = gen.Register(&gen.Check[caseC01]{
 		o.ClassIf(c.Hist > 0, "used-scalar-object")
 		s0 := s.S
 		want := ref.Mul(k, mp)
+		if c.Pre != "" && !mp.Inf {
+			o.Class("after-related-multiply")
+			if r := related(c.Pre, mp); !r.Inf {
+				re := secp256k1.NewElement()
+				if err := re.DecodeCoordinates([32]byte(ref.Bytes32(r.X)), [32]byte(ref.Bytes32(r.Y))); err != nil {
+					return &gen.Inconclusive{Msg: "cannot build the related point: " + err.Error()}
+				}
+				re.Multiply(mkScalar(gen.B(c.PreK)))
+			}
+		}
 		if got := p.E.Multiply(s); got != p.E {
 			return gen.Fail("Multiply/return", "did not return the receiver")
 		}
